@@ -243,7 +243,8 @@ class _Filter:
         self.rep, self.keep, self.rename = rep, keep, rename
 
     def rule(self, rid, text):
-        pass
+        if rid in self.keep:
+            self.rep.rule(self.rename + rid, text)
 
     def __getattr__(self, name):
         f = getattr(self.rep, name)
